@@ -61,7 +61,15 @@ def raw_values(rng, program, tmp):
 def fixed_values(names, cmds):
     """values that are always tried with every parameter: lists whose cleaned form compares equal to the raw form although the types differ
     (1 == True, 1.0 == 1), relative paths, empty and nested lists, tuples, dicts"""
-    return [[], [[]], [[1, 2], 3], [names[0], cmds[1]], [1, "2", 3.5], ["1", "x"], (1, 2), [1, 0, 1], [0], [True, 1], [1.0, 2], [[1, 0], [0]], ["a.csv"], ["a.csv", "sub/b.nc"],
+    import numpy
+    from decimal import Decimal
+    from fractions import Fraction
+    # numbers that are no built-in int/float (what numpy, a database driver or exact arithmetic hand to the programming interface), and commands of
+    # ANOTHER program that carry the same result names as this program's
+    other = make_program(None)
+    foreign = [other.commands[n] for n in names[:2] if n in other.commands]
+    return [numpy.float32(2.5), numpy.float16(0.75), numpy.int8(3), numpy.float64(1.5), Decimal("2.5"), Fraction(5, 2), [numpy.float32(0.25), 2]] + foreign + [list(foreign)] + [
+            [], [[]], [[1, 2], 3], [names[0], cmds[1]], [1, "2", 3.5], ["1", "x"], (1, 2), [1, 0, 1], [0], [True, 1], [1.0, 2], [[1, 0], [0]], ["a.csv"], ["a.csv", "sub/b.nc"],
             [True, False], ["true", 0], "a.csv", "sub/b.nc", "missing.csv",
             {}, {"a": "b"}, {"k": 1, "j": "v"}, {"1": "x", "3": "y"}, {"a": 1.5}, {"a": [1]}]
 
@@ -296,6 +304,12 @@ def run(ctx):
                     ctx.fail("%s.clean(%r) under working directory %r returned %r, not the path joined to the working directory" % (cname, v, wd, r1[1]), desc)
                 elif r1[0] == "ok" and cname.startswith("Path") and isinstance(v, str) and not os.path.isabs(v) and wd is None:
                     ctx.fail("%s.clean(%r) without a working directory returned %r instead of raising InvalidRelativePath" % (cname, v, r1[1]), desc)
+                from numbers import Number
+                from mpilot.commands import Command
+                if r1[0] == "ok" and cname.startswith("Number") and isinstance(v, Number) and r1[1] is not v:
+                    ctx.fail("%s.clean(%r): a value that is a number already came back as %r (%s)" % (cname, v, r1[1], type(r1[1]).__name__), desc)
+                if r1[0] == "ok" and cname.startswith("Result") and isinstance(v, Command) and r1[1] is not v:
+                    ctx.fail("%s.clean(<command object %s>) returned another command object (of program %r)" % (cname, v.result_name, getattr(r1[1], "program", None)), desc)
                 if not same_clean(r1, r2):
                     ctx.fail("%s.clean(%r) gives different answers on repetition: %r then %r" % (cname, v, r1[:2], r2[:2]), desc)
                 if before_raw != snap(v):
